@@ -453,6 +453,17 @@ pub fn pool(tier: Tier, seed: u64, thin: usize) -> Vec<Family> {
         keys.dedup();
         (keys, [0, 4, 1, 5, 2, 3, 7, 6][i % 8])
     }));
+    // F4c: one long key whose length sweeps so that the FILE length passes every residue next to the multiples of the block
+    // sizes a writer might stage its output in (4 KiB .. 64 KiB, and twice 64 KiB): a single-key set of length L is L + 38 bytes
+    {
+        let blocks = [(4096usize, 1usize), (8192, 1), (16384, 1), (32768, 1), (65536, 1), (65536, 2)];
+        let win = 29usize; // file lengths B*k-16 ..= B*k+12
+        fams.push(fam("file-length-sweep", blocks.len() * win, seed, move |i, _| {
+            let (b, k) = blocks[i / win];
+            let l = b * k + (i % win) - 16 - 38;
+            (vec![vec![b'a'; l]], [0, 0, 1][i % 3])
+        }));
+    }
     // F4b: two keys whose root needs 4-byte address deltas: one short key emitted first, then a 17 MB long key, so the
     // root (emitted last) points > 2^24 bytes back. Cheap way to reach delta width 4 without millions of keys.
     fams.push(fam("huge-delta", tier.pick(1, 2), seed, |i, rng| {
